@@ -733,6 +733,11 @@ class Frame:
                         pass
             if not inlined:
                 res = self.call_term(bb)
+                if sn in ("cb.assert_zero", "cb.assert_one") and len(args) == 2:
+                    # idiom table: assert_zero(x) ≡ connect(x, zero), assert_one(x) ≡ connect(x, one) — one canonical form for every rule
+                    k = "cb.zero" if sn == "cb.assert_zero" else "cb.one"
+                    args = (args[0], args[1], ("call", site + "#" + k, k, (), (args[0],)))
+                    sn = "cb.connect"
                 e = Effect(site, sn, cga, args, ctrl, loc, self, bb, t, res, 0)
                 self.ev.site_effect[site] = e
                 emit(e)
@@ -849,6 +854,22 @@ def walk(t, seen=None):
         if isinstance(x, tuple):
             for y in walk(x):
                 yield y
+
+
+def subst(t, old, new, _memo=None):
+    """t with every occurrence of sub-term `old` replaced by `new`"""
+    if _memo is None:
+        _memo = {}
+    if not isinstance(t, tuple) or not t:
+        return t
+    if t == old:
+        return new
+    got = _memo.get(id(t))
+    if got is not None and got[0] is t:
+        return got[1]
+    r = tuple(subst(x, old, new, _memo) if isinstance(x, tuple) else x for x in t)
+    _memo[id(t)] = (t, r)
+    return r
 
 
 def leaves(t):
